@@ -45,6 +45,10 @@ TIE_THEOREMS = ["C14_tie_toPolyClip", "C14_tie_polyClipToPolygon", "C14_tie_clip
                 "C14_tie_LineString_Clip", "C14_tie_MultiLineString_Clip", "C14_src_clip"]
 
 
+SRC_MODULE = T + "Src"
+SRC_THEOREMS = ["C14_src", "C14_vertices_of_contract", "C14_empty_iff_of_contract"]
+
+
 def regen_glue(check):
     """T1: regenerate lean/GeomV/C14/Gen.lean from linestring.go / multilinestring.go / polygon.go (+ the two other
     Polygons() methods) of the tree under test (written only when it changed).  If a function left the translatable
@@ -54,7 +58,7 @@ def regen_glue(check):
     cfg = check.cfg
 
     def drop(why):
-        cfg["lean_modules"] = [m for m in cfg["lean_modules"] if m != TIE_MODULE]
+        cfg["lean_modules"] = [m for m in cfg["lean_modules"] if m not in (TIE_MODULE, SRC_MODULE)]
         check.broken.append(why)
     ok, gobin, out = vcheck.go_build("c14", check.rundir)
     if not ok:
@@ -87,26 +91,33 @@ def pregen(check):
 
 CFG = {
     "id": "C14",
-    "lean_modules": ["GeomV.C14.Proofs", "GeomV.C14.Complete", "GeomV.C14.Length", "GeomV.C14.Unify", TIE_MODULE],
+    "lean_modules": ["GeomV.C14.Proofs", "GeomV.C14.Complete", "GeomV.C14.Length", "GeomV.C14.Unify", "GeomV.C14.Known", "GeomV.C14.Src", TIE_MODULE],
     "lean_dirs": ["C14", "C01"],
     "exe": "geomv_c14",
     "go_cmd": "c14",
     "stages": ["go:gen", "go:impl", "lean:judge"],
-    "theorems": [T + n for n in ["C14_glue", "C14_trivial", "C14_exact", "C14_vertices", "C14_empty_iff", "oracle_midpoints_inside", "oracle_endpoints_on_L", "oracle_subintervals_cover", "oracle_complete", "oracle_complete_col", "boundary_param_mem", "oracle_intervals_disjoint", "collinear_free", "C14_length", "C14_together_defect", "C14_pointset_of_segs", "C14_exact_of_segs", "closed_iff_covered", "covered_mergeAdj", "onSeg_sub_iff"] + TIE_THEOREMS],
+    "theorems": [T + n for n in ["C14_glue", "C14_trivial", "C14_exact", "C14_vertices", "C14_empty_iff", "oracle_midpoints_inside", "oracle_endpoints_on_L", "oracle_subintervals_cover", "oracle_complete", "oracle_complete_col", "boundary_param_mem", "oracle_intervals_disjoint", "collinear_free", "C14_length", "C14_together_defect", "C14_pointset_of_segs", "C14_exact_of_segs", "closed_iff_covered", "covered_mergeAdj", "onSeg_sub_iff", "C14_known_small_scale", "known_small_scale_facts"] + TIE_THEOREMS + SRC_THEOREMS],
     "level": "proof",
     "trusted_base": [
         "Lean 4.33.0 kernel; axioms of every theorem printed by #print axioms must be within {propext, Classical.choice, Quot.sound}",
-        "the CLIPLINE sweep of github.com/ctessum/polyclip-go v1.1.0 (everything in clipper.compute after its two trivial-case tests, and the connector) is a PARAMETER of the model with the explicit contract hypothesis ClipLineSpec; it is exercised and compared with the exact Rat oracle (maximal inside chains) on every generated case, not proved",
-        "model lean/GeomV/C01/Model.lean (clip, polyOp, construct) is tied to /repo/{linestring,multilinestring,polygon}.go and polyclip-go@v1.1.0/clipper.go by the correspondence run on every check",
-        "IEEE-754 rounding: line vertices are integers and polygon vertices half-integers (exact); crossing points are floats, compared with the oracle's exact rational crossing points to 1e-9 of the extent; lengths are summed in binary64",
+        "the CLIPLINE sweep of github.com/ctessum/polyclip-go v1.1.0 (everything in clipper.compute after its two trivial-case tests, and the connector) is a PARAMETER of the model with ONE explicit contract hypothesis, ClipLineSegsSpec (the segments of the returned pieces are, up to direction and order, the oracle's maximal inside parts): the headline (C14_exact_of_segs) and the length clause (C14_length) both rest on it; it is exercised and compared with the exact Rat oracle on every generated case, not proved. (C14_exact / C14_vertices / C14_empty_iff are also stated under the point-set form ClipLineSpec.)",
+        "T1: harness/cmd/c14/extract.go (go/ast, ~550 lines, translation table in its header) regenerates lean/GeomV/C14/Gen.lean from linestring.go / multilinestring.go / polygon.go (+ the Polygons() methods of multipolygon.go, bounds.go) of the tree under test on every run, in a faulting monad (index, slice, make are partial: GenLib.lean); Ties.lean proves that LineString.Clip, MultiLineString.Clip, Polygon.op, clipperOp, toPolyClip, polyClipToPolygon, Polygons as regenerated return WITHOUT FAULT exactly the model's clip / polyOp / clipperOp / polyClipToPolygon / polygonsOf. Not modelled by the translation: slice capacity (taken = length) and aliasing (observed by the harness: operands compared with a snapshot after every call, histories on one object, concurrent callers)",
+        "the head of polyclip's clipper.compute (construct: the two trivial-case tests), BoundingBox and Overlaps are transcribed by hand in lean/GeomV/C01/Model.lean and pinned by version + go.sum hash + sha256 of clipper.go/geom.go/connector.go (pin_polyclip); tied by the correspondence run",
+        "IEEE-754 rounding: crossing points are floats, compared with the oracle's exact rational crossing points to 1e-9 of the extent; lengths are summed in binary64 and compared to 1e-9 relative; inputs are exact (the oracle works on the rational values of the float inputs)",
         "harness/cmd/c14 (+ harness/cmd/c01/shapes) + lean driver + lib/vcheck.py transport inputs faithfully",
     ],
-    "assumptions": ["finite coordinates; membership in P is the even-odd rule over all rings of all member polygons; the oracle is proved sound and complete (oracle_complete: off the finitely many crossing parameters a point of a segment is inside P iff its parameter lies in an oracle interval); the length clause is proved under the segment form of the contract (ClipLineSegsSpec)"],
+    "assumptions": ["finite coordinates; membership in P is the even-odd rule over all rings of all member polygons; the oracle is proved sound and complete (oracle_complete: off the finitely many crossing parameters a point of a segment is inside P iff its parameter lies in an oracle interval); the length clause is proved under the segment form of the contract (ClipLineSegsSpec)",
+                    "closureOK (decidable; evaluated by the judge on every in-quantifier case, DIFF if false): every crossing parameter of a line segment whose point lies on the boundary of P is an end point of an inside interval, i.e. P lies on at least one side of every boundary crossing. It is the only use of 'a proper crossing flips the even-odd status', which is not proved",
+                    "OUT OF SCOPE (stated, not checked against the Spec): non-simple lines (self-crossing, repeated vertices, closed lines, members whose interiors meet), invalid polygons, lines not in general position (a line vertex on the boundary, a polygon vertex on the line, collinear overlap). Such cases get the class suffix -outside-quantifier; for them only the theorems that hold for ALL inputs apply and are compared: no panic and the glue (C14_tie_*, C14_glue), no piece in the trivial cases (C14_trivial)"],
     "rule": "simple open integer-grid polylines (random walks, zigzags with many crossings, walks entirely inside, entirely outside within the box, box-disjoint, straight through) and multi-line strings of 1-4 members that are pairwise disjoint or form a network (two routes between the same junctions with equal / different vertex counts and either direction, branches at a common end point; interiors never cross) "
             "against polygons with holes / multi-polygons / boxes at half-integer offsets (no line vertex on the boundary, no polygon vertex on the line: rejected by exact int64 tests); "
-            "40% of the cases at coordinate scales 2^-20/2^-24/2^-30/2^+20 (dyadic: exact), multi-call histories on one line with operands overwritten in place, operands over one flat backing array and compared with a snapshot after each call, size-threshold cases (vertex/ring/member counts beyond 64/128/1024; lines of 1024..3000 vertices); distinct = distinct input line; non-trivial = verdict class not '-outside-quantifier' (degenerate corpus receivers, compared with the model only)",
+            "40% of the cases at coordinate scales 2^-20/2^-24/2^-30/2^+20 (dyadic: exact), multi-call histories on one line with operands overwritten in place, operands over one flat backing array and compared with a snapshot after each call, size-threshold cases (vertex/ring/member counts beyond 64/128/1024; lines of 1024..3000 vertices; multi-line strings of 63..257 (thorough: ..2049) members, each with an inside part of a different length); "
+            "closed CYCLES of 3..6 member lines through shared junctions inside P (hole of P inside the block, a street leaving P from a junction, a chord, a free member; member order and directions shuffled); "
+            "multi-polygons with empty / nil member polygons first, in the middle and last; non-rectangular 3- and 4-vertex polygons (diamond, dart, trapezoid, triangle) with lines strictly inside their bounding box; "
+            "a non-dyadic affine family (scales 0.1, 1/3, 0.7, 1.1e-3, 37.3 and offsets 1000.37, -512.9: full 53-bit mantissas); "
+            "cc lines: concurrent callers (answer computed alone, then 6 goroutines x 30 rounds on private deep copies while 6 others clip large unrelated inputs; first answer not bit-identical to the reference is judged, class prefix conc-); distinct = distinct input line; non-trivial = verdict class not '-outside-quantifier' (degenerate corpus receivers, compared with the model only)",
     "trivial_class": r"outside-quantifier$",
     "pregen": pregen,
     "timeout": {"quick": 600, "thorough": 3000},
-    "explanation": "partial: the glue and the trivial cases are proved for all inputs and the oracle is proved sound; the CLIPLINE sweep is exercised (compared with the oracle per case), not proved",
+    "explanation": "partial: the glue is regenerated from the Go source and proved equal to the model without fault (T1), the trivial cases are proved for all inputs, the oracle is proved sound and complete, and headline + length clause follow from ONE contract on the sweep (ClipLineSegsSpec); the CLIPLINE sweep itself is exercised (compared with the oracle per case), not proved",
 }
